@@ -105,8 +105,9 @@ GraphqFails(e) ==
       E8 == LET p == e.beam.p IN
             IF NN = 0 THEN p = <<>>
             ELSE Len(p) >= 1 /\ PathOK(p) /\ IsWalk(p) /\ Overlaps(p) /\ e.beam.s = SpellAll(p)
-      \* E7: the table was pruned, so no extension is left dangling
-      E7 == \A n \in 1..NN : \A d \in {"L", "R"} : Resolvable(n, d) = BasesOf(nodes[n], d)
+      \* E7: the table was pruned, so no extension is left dangling (origin "unpruned": the graph compress_kmers builds
+      \* straight from a thresholded table, where extensions towards dropped k-mers survive - every other clause still applies)
+      E7 == e.origin = "unpruned" \/ \A n \in 1..NN : \A d \in {"L", "R"} : Resolvable(n, d) = BasesOf(nodes[n], d)
   IN {c \in {"E1", "E2", "E3", "E4", "E5", "E6", "E7", "E8"} :
         ~(CASE c = "E1" -> E1 [] c = "E2" -> E2 [] c = "E3" -> E3 [] c = "E4" -> E4
             [] c = "E5" -> E5 [] c = "E6" -> E6 [] c = "E7" -> E7 [] c = "E8" -> E8)}
